@@ -547,6 +547,10 @@ func (c *specCtx) ident(name string) (Val, types.Type) {
 			if b := c.lookupLocal("rangeindex"); b != nil {
 				return scalar(tb.Add(b.V.T[0], tb.Int(1))), untypedInt
 			}
+			// range over a map: the number of keys yielded so far
+			if it, ok := c.innermostIter(); ok && it.Count != nil {
+				return scalar(it.Count), untypedInt
+			}
 		}
 	}
 	return c.pkgObject(c.pkg, name)
@@ -1045,7 +1049,19 @@ func (c *specCtx) call(n *SCall) (Val, types.Type) {
 		if len(v.T) != 2 {
 			c.fail(name + " needs an interface value")
 		}
-		return scalar(tb.Select(c.ghostArr(name, SArrI), tb.App("umkey", SInt, v.T[0], v.T[1]))), untypedInt
+		return scalar(tb.Select(c.ghostArr(name, SArrI), v.T[1])), untypedInt
+	case "rejected":
+		// rejected(r): a third-party unmarshaler or decoder refused the bytes it was given while decoding from r (token model)
+		v, _ := arg(0)
+		return scalar(tb.Select(c.ghostArr("rejected", SArrB), readerKey(tb, v))), boolType
+	case "sumOf":
+		// sumOf(x): the value of the summary token that stands for the encoding of x (a value whose type has a codec declaration)
+		v, T := arg(0)
+		if _, isPtr := T.Underlying().(*types.Pointer); isPtr {
+			v = c.e.plainPtr(c.st, v)
+		}
+		fv := c.e.flatten(c.st, T, v)
+		return scalar(tb.App("sumval_"+typeKey(T), SInt, intTerms(tb, fv.T)...)), untypedInt
 	case "rec":
 		// rec("W", k): the value recorded for loop iteration k by a loop's record clause
 		s, ok := n.Args[0].(*SStr)
@@ -1060,7 +1076,7 @@ func (c *specCtx) call(n *SCall) (Val, types.Type) {
 		if len(v.T) != 2 {
 			c.fail("unmarshalled needs an interface value")
 		}
-		return scalar(tb.Select(c.ghostArr("unmarshalled", SArrB), tb.App("umkey", SInt, v.T[0], v.T[1]))), boolType
+		return scalar(tb.Select(c.ghostArr("unmarshalled", SArrB), v.T[1])), boolType
 	case "marshalLen":
 		// marshalLen(x): the length of the byte slice x.MarshalBinary() returns (uninterpreted function of the value, as in the library model)
 		v, _ := arg(0)
